@@ -50,6 +50,17 @@ func NewFuncFacts(p *Prog, info *types.Info, fd *ast.FuncDecl) *FuncFacts {
 				return false
 			case *ast.AssignStmt:
 				f.recordAssign(x, ranges)
+			case *ast.TypeSwitchStmt:
+				// v := x.(type): each clause has its own implicit object for v, all bound to x
+				if as, ok := x.Assign.(*ast.AssignStmt); ok && len(as.Rhs) == 1 {
+					if ta, ok := as.Rhs[0].(*ast.TypeAssertExpr); ok {
+						for _, c := range x.Body.List {
+							if o := info.Implicits[c]; o != nil {
+								f.asg[o] = append(f.asg[o], Assign{Stmt: x, Rhs: ta.X, Ranges: append([]ast.Expr(nil), ranges...)})
+							}
+						}
+					}
+				}
 			case *ast.ValueSpec:
 				for i, nm := range x.Names {
 					if o := info.Defs[nm]; o != nil {
